@@ -7,7 +7,16 @@ import "sort"
 // doc comments of v0.CListMempool / v1.TxMempool, config.MempoolConfig) and shares no code with either
 // implementation.
 
-const nAlpha = 12
+// nAlpha is the capacity of the transaction alphabet; a case uses the first conf.Alpha of them.
+const nAlpha = 48
+
+// letter names alphabet tx i in logs and is the byte its payload is made of.
+func letter(i int) byte {
+	if i < 26 {
+		return byte('A' + i)
+	}
+	return byte('a' + i - 26)
+}
 
 type verdict struct {
 	CodeNew uint32 // answer to a first-time CheckTx (0 = accept)
@@ -19,6 +28,8 @@ type verdict struct {
 
 type conf struct {
 	V1          bool
+	Profile     string // small | wide (pools beyond 12 txs) | long (tx lengths around the varint boundaries) | wide-long
+	Alpha       int    // number of distinct transactions in play
 	Size        int
 	MaxTxsBytes int64
 	MaxTxBytes  int
